@@ -1038,6 +1038,29 @@ fn index_all(fmt: &str, data: &[u8], s: &mut Sum) {
                 for p in [0u64, 1, 65_279, 65_280, 100_000, 1 << 32, u64::MAX - 1, u64::MAX] {
                     dbg(&ix.query(p));
                 }
+                // the index drives seeks by uncompressed position over a valid BGZF file
+                // (bgzf::io::IndexedReader: Reader::seek_by_uncompressed_position), then reads
+                let file = super::c15_files::bgzip_blocks(&super::c15_files::sam_text()[..300], 120);
+                let mut r = bgzf::io::IndexedReader::new(io::Cursor::new(file), ix);
+                for p in [0u64, 1, 119, 120, 121, 239, 240, 299, 300, 301, 65_280, 1 << 32, u64::MAX - 1, u64::MAX] {
+                    stage("data-query");
+                    match io::Seek::seek(&mut r, io::SeekFrom::Start(p)) {
+                        Ok(at) => {
+                            dbg(&at);
+                            dbg(&r.virtual_position());
+                            let mut buf = [0u8; 16];
+                            match r.read(&mut buf) {
+                                Ok(n) => dbg(&n),
+                                Err(e) => dbg(&e),
+                            }
+                            match r.fill_buf() {
+                                Ok(b) => dbg(&b.len()),
+                                Err(e) => dbg(&e),
+                            }
+                        }
+                        Err(e) => dbg(&e),
+                    }
+                }
             }
             Err(e) => s.e(&e),
         },
@@ -1134,6 +1157,43 @@ fn bgzf_all(data: &[u8], s: &mut Sum) {
                 Ok(_) => {}
                 Err(_) => break,
             }
+        }
+    }
+    {
+        // Read::read / read_exact / read_to_end at BLOCK BOUNDARIES with caller buffers around
+        // every size the reader compares a buffer with: the fast path of `read` inflates the next
+        // block straight into the caller's buffer (`&mut buf[..isize]`, ISIZE from the trailer)
+        // when the buffer is "large enough"; 65280 = htslib block, 65495 = largest block the
+        // noodles writer stages, 65536 = BGZF_MAX_ISIZE; plus the first block's own size +-1
+        let first = bgzf::io::Reader::new(data).fill_buf().map(|b| b.len()).unwrap_or(0);
+        let mut sizes = vec![0usize, 1, 2, 65_279, 65_280, 65_281, 65_494, 65_495, 65_496, 65_500, 65_520, 65_535, 65_536, 65_537];
+        sizes.extend([first.saturating_sub(1), first, first + 1]);
+        let mut big = vec![0u8; 65_600];
+        for &want in &sizes {
+            stage("read");
+            let mut r = bgzf::io::Reader::new(data);
+            for _ in 0..8 {
+                match r.read(&mut big[..want]) {
+                    Ok(0) | Err(_) => break,
+                    Ok(_) => {}
+                }
+            }
+            // the same after a partial read of the first block and after consuming it whole
+            let mut r = bgzf::io::Reader::new(data);
+            let mut one = [0u8; 1];
+            let _ = r.read(&mut one);
+            let _ = r.read(&mut big[..want]);
+            let mut r = bgzf::io::Reader::new(data);
+            if let Ok(n) = r.fill_buf().map(|b| b.len()) {
+                r.consume(n);
+                let _ = r.read(&mut big[..want]);
+                let _ = r.read(&mut big[..want]);
+            }
+            let mut r = bgzf::io::Reader::new(data);
+            let _ = r.read_exact(&mut big[..want]);
+            let _ = r.read(&mut big[..want]);
+            let mut all = Vec::with_capacity(want);
+            let _ = r.read_to_end(&mut all);
         }
     }
     {
@@ -1313,8 +1373,8 @@ pub fn codec(name: &str, src: &[u8], usize_: usize) -> String {
         n if n.starts_with("rans4x8") => v::rans_4x8_decode(src).map(|o| o.len()),
         n if n.starts_with("nx16") => v::rans_nx16_decode(src, usize_).map(|o| o.len()),
         n if n.starts_with("aac") => v::aac_decode(src, usize_).map(|o| o.len()),
-        "fqz" => v::fqzcomp_decode(src).map(|o| o.len()),
-        "tok" => v::name_tokenizer_decode(src).map(|o| o.len()),
+        n if n.starts_with("fqz") => v::fqzcomp_decode(src).map(|o| o.len()),
+        n if n.starts_with("tok") => v::name_tokenizer_decode(src).map(|o| o.len()),
         "gzip" => {
             let mut dst = vec![0u8; usize_];
             v::gzip_decode(src, &mut dst).map(|_| usize_)
